@@ -41,6 +41,25 @@ theorem C06_guard_consistent (s : State) (idx : Nat) (o : TxOut) (h : s.us[idx]?
     cases h
   simp [hcb, hlt, h]
 
+/-- C06.is_solution_ok_catches: `Tx.is_solution_ok` turns `ScriptError` — and nothing else — into `False` (the `except` clauses of
+the function as they are in the source now, `Gen/Validate.lean`): this is the case split of `isSolutionOk` (`scriptError` ↦
+`False`, any other exception escapes, nothing is ever turned into `True`) -/
+theorem C06_is_solution_ok_catches : Gen.Validate.isSolutionOkCatches = ["ScriptError"] := rfl
+
+/-- C06.never_true_on_exception: whatever the interpreter does, `is_solution_ok` returns `True` only when `check_solution`
+returned normally -/
+theorem C06_true_only_if_check_returns (V : VM) (c : Coin) (s : State) (idx : Nat)
+    (h : isSolutionOk V c s idx = .ok true) : checkSolution V c s idx = .ok := by
+  unfold isSolutionOk at h
+  split at h
+  · cases h
+  · split at h
+    · cases h
+    · split at h
+      · assumption
+      · cases h
+      · cases h
+
 /-! ## how the unspents get populated -/
 
 /-- C06.unspents_from_db_sound: when `unspents_from_db` returns, the list has one entry per input, and entry `k` is
